@@ -70,7 +70,8 @@ Print Assumptions C05_populated_example.
    client_step (Model/ClientStep.v) = the tracked-state handlers, then handleSASL /
    handleSASLError, handleCAP and the CTCP stage of RunHandlers with the default
    repliers (the models of C09, C08 and C14, used unchanged).  The one hypothesis:
-   Client.conn is non-nil while the event is handled (see C05_finger_after_disconnect). *)
+   Client.conn is non-nil while the event is handled (Model/Ctcp.v still has the FINGER
+   replier dereference it; /repo 187fc3e made the replier return instead). *)
 Theorem C05_client_no_panic : forall cfg cs e, Inv (cs_state cs) -> Ctcp.connected (cc_env cfg) = true ->
   client_step cfg cs e <> Panic.
 Proof. exact client_step_no_panic. Qed.
@@ -80,12 +81,3 @@ Theorem C05_client_all_histories : forall cfg sts h, Ctcp.connected (cc_env cfg)
   exists cs out, client_run cfg (client_init sts) h = Ok (cs, out) /\ Inv (cs_state cs).
 Proof. exact client_all_histories. Qed.
 Print Assumptions C05_client_all_histories.
-
-(* The hypothesis cannot be dropped: the default FINGER replier runs in a goroutine of its
-   own and dereferences Client.conn, which Connect sets to nil when it returns; a request
-   still in flight when the connection ends panics outside every recover (finding, see
-   notes/design/C05.md). *)
-Theorem C05_finger_after_disconnect : forall cfg cs, Ctcp.connected (cc_env cfg) = false ->
-  Inv (cs_state cs) -> client_step cfg cs finger_request = Panic.
-Proof. exact finger_after_disconnect_panics. Qed.
-Print Assumptions C05_finger_after_disconnect.
